@@ -281,7 +281,9 @@ Proof. intros H. destruct f; cbn [parse_related_loop]; [reflexivity|]. rewrite H
 (* the state after the type of one relation declaration *)
 Definition related_types (j : item) (p3 : pst) : list rtype * pst :=
   if bytes_eqb (i_val j) t_Array then
-    let '(_, _, q) := p_match [MStr (c x3c)] p3 in parse_type_union (S (length (toks q))) AngledR [] q
+    let '(_, _, q) := p_match [MStr (c x3c)] p3 in
+    let '(ts, q0) := parse_type_union (S (length (toks q))) AngledR [] q in
+    let '(_, _, q1) := p_match [MOpt [c x2c]] q0 in (ts, q1)
   else if bytes_eqb (i_val j) t_SubjectSet then
     let '(t, q) := match_subject_set p3 in
     let '(_, _, q1) := p_match arr_suffix q in ([t], q1)
@@ -296,7 +298,8 @@ Proof.
   unfold related_types.
   destruct (bytes_eqb (i_val j) t_Array).
   { pose proof (len_match [MStr (c x3c)] p3) as H. destruct (p_match _ p3) as [[ok caps] q]. cbn [snd] in H.
-    pose proof (len_parse_type_union (S (length (toks q))) AngledR [] q). lia. }
+    pose proof (len_parse_type_union (S (length (toks q))) AngledR [] q) as H1. destruct (parse_type_union _ AngledR [] q) as [ts q0]. cbn [snd] in H1.
+    pose proof (len_match [MOpt [c x2c]] q0) as H2. destruct (p_match [MOpt [c x2c]] q0) as [[ok2 caps2] q1]. cbn [snd] in *. lia. }
   destruct (bytes_eqb (i_val j) t_SubjectSet).
   { pose proof (len_match_subject_set p3) as H. destruct (match_subject_set p3) as [t q]. cbn [snd] in H.
     pose proof (len_match arr_suffix q) as H2. destruct (p_match arr_suffix q) as [[ok caps] q1]. cbn [snd] in *. lia. }
